@@ -22,13 +22,13 @@ RULE = ("spectra with 1-4 axes (lengths 1-6 incl. axes of length 1; positive rea
         "(1e-12), plain view reproduces the input within 0.5*10^-p. Non-trivial: >=2 options active; distinct = digest(input, argv).")
 ASSUMPTIONS = ["npy pipes between chained invocations are lossless (C07/C15 check that separately)"]
 FLOORS = {"quick": {"evaluations": 500, "distinct_nontrivial": 300, "counts": {"combined_vs_chain": 500, "mask_checks": 100, "normalize_checks": 100}},
-          "thorough": {"evaluations": 8000, "distinct_nontrivial": 5000, "counts": {"combined_vs_chain": 8000}}}
+          "thorough": {"evaluations": 30000, "distinct_nontrivial": 15000, "counts": {"combined_vs_chain": 30000}}}
 NSHARD = 32
 
 
 def plan(tier, seed):
     q = tier == "quick"
-    return [{"name": "s%d" % i, "i": i, "n": 4 if q else 16} for i in range(NSHARD)]
+    return [{"name": "s%d" % i, "i": i, "n": 4 if q else 64} for i in range(NSHARD)]
 
 
 def load_npy(b):
